@@ -104,13 +104,18 @@ fn step(w: &mut World, spec: &SeqSpec, shm: &Shm, op: &Op, count: bool) -> VResu
         }
     }
     w.check_all()?;
-    if count || spec.extra_param == 0 {
-        // the extra oracle (cursor programs) is read-only and expensive: owner only
+    if let Some(extra) = spec.extra {
+        // the extra oracle (cursor programs) reads through the database — seek charges, caches —
+        // so it runs on every exploration of a path, like the other oracles; its counters go to a
+        // scratch area when the node is not counted
+        if count {
+            extra(w, spec, shm)?;
+        } else {
+            static SCRATCH: std::sync::OnceLock<Shm> = std::sync::OnceLock::new();
+            extra(w, spec, SCRATCH.get_or_init(|| Shm::new(1024, 4096)))?;
+        }
     }
     if count {
-        if let Some(extra) = spec.extra {
-            extra(w, spec, shm)?;
-        }
         let n = shm.add(C_NODES, 1);
         if n % 7919 == 0 || n < 2 {
             let path = unsafe { CHILD_PATH.clone() };
